@@ -164,6 +164,7 @@ class Design:
     slice as the slice-of-slice chain chosen for it (only in connect statements: update blocks do not accept it)"""
     if o[0] == 'const':
       c = self.consts[o[1]]
+      if c['type'][0] == 'b' and c.get('bits'): return f"Bits{c['type'][1]}({c['value']})"       # a Bits constant instead of an int
       return tconst_src(c['type'], c['value'])
     sg = self.sigs[o[1]]
     hp, ap = self.comps[sg['comp']]['path'], self.comps[at]['path']
@@ -336,7 +337,7 @@ class Design:
 
   def new_const(self, typ, value, at):
     cid = len(self.consts)
-    self.consts.append(dict(cid=cid, type=typ, value=value, at=at))
+    self.consts.append(dict(cid=cid, type=typ, value=value, at=at, bits=bool((value ^ cid) & 1)))
     return ('const', cid)
 
   # ------------------------------------------------------------------ rendering
@@ -1355,6 +1356,49 @@ def inj_type9(d, rng):
   d.add_conn(u, v, gp)
   return 'SignalTypeError', 9
 
+def inj_const_port(d, rng, typ_no):
+  """a constant as the driver where the port rules forbid it: the constant sits in the component that makes the connection
+  5: a non-top component ties its OWN InPort; 7: a parent ties a child's OutPort / Wire; 9: a component ties a port two or
+  more levels below it"""
+  if typ_no == 5:
+    cs = _non_top(d)
+    if not cs: return None
+    at = host = rng.choice(cs); kind = 'in'
+  elif typ_no == 7:
+    ps = _with_children(d)
+    if not ps: return None
+    at = rng.choice(ps); host = rng.choice(d.comps[at]['children']); kind = rng.choice(['out', 'wire'])
+  else:
+    gs = [(d.parent(d.parent(c['idx'])), c['idx']) for c in d.comps
+          if d.parent(c['idx']) is not None and d.parent(d.parent(c['idx'])) is not None]
+    if not gs: return None
+    at, host = rng.choice(gs); kind = rng.choice(['in', 'out', 'wire'])
+  v = d.random_object(_fresh(d, host, kind, rng.choice(TYPES)), rng)
+  t = d.otype(v)
+  c = d.new_const(t, rng.randrange(1 << twidth(t)), at)
+  d.add_conn(v, c, at)
+  if rng.random() < 0.4 and typ_no != 5:     # the tied signal drives something legal further on
+    y = d.whole(_fresh(d, host, 'wire', t)); d.add_conn(v, y, host)
+  return 'SignalTypeError', typ_no
+
+def table_const_ports(rng):
+  """a constant as the driver: every (component that makes the connection, component of the tied signal) the source can
+  express x kind of the tied signal"""
+  out = []
+  for at, hv in ((0, 0), (1, 1), (3, 3), (0, 1), (1, 3), (0, 3)):
+    for kv in ('in', 'out', 'wire'):
+      for sub in (False, True):
+        d = fixed_hierarchy()
+        typ = rng.choice([('b', 4), ('b', 8), ('s', 'PA')])
+        sid = d.add_sig(hv, 'v', kv, typ)
+        v = d.random_object(sid, rng) if sub else d.whole(sid)
+        t = d.otype(v)
+        c = d.new_const(t, rng.randrange(1 << twidth(t)), at)
+        d.add_conn(v, c, at)
+        d.labels.append((f'port-net:const@{at}->{kv}@{hv}' + (':part' if sub else ''), None, None))
+        out.append(d)
+  return out
+
 def inj_op(d, rng, ff, op, shape='whole'):
   comp = rng.randrange(len(d.comps))
   typ = {'whole': rng.choice(TYPES), 'slice': ('b', rng.choice([4, 8, 12])), 'field': rng.choice([('s', 'PA'), ('s', 'PB')])}[shape]
@@ -1405,6 +1449,8 @@ INJECTORS = {
   'op2_u_for': lambda d, r: inj_op2(d, r, False, 'for'),
   'op2_f_eq': lambda d, r: inj_op2(d, r, True, 'assign'), 'op2_f_at': lambda d, r: inj_op2(d, r, True, 'at'),
   'op2_f_for': lambda d, r: inj_op2(d, r, True, 'for'),
+  'const_type5': lambda d, r: inj_const_port(d, r, 5), 'const_type7': lambda d, r: inj_const_port(d, r, 7),
+  'const_type9': lambda d, r: inj_const_port(d, r, 9),
   'func_shared_nested': lambda d, r: inj_func(d, r, 'shared_nested'), 'func_shared_direct': lambda d, r: inj_func(d, r, 'shared_direct'),
   'func_vs_direct': lambda d, r: inj_func(d, r, 'vs_direct'), 'func_vs_net': lambda d, r: inj_func(d, r, 'vs_net'),
   'func_cycle': lambda d, r: inj_func(d, r, 'cycle'),
@@ -1433,7 +1479,7 @@ def design_to_json(d):
   return dict(
     comps=[[c['name'], c['parent']] for c in d.comps],
     sigs=[[s['comp'], s['name'], s['kind'], list(s['type'])] for s in d.sigs],
-    consts=[[list(c['type']), c['value'], c['at']] for c in d.consts],
+    consts=[[list(c['type']), c['value'], c['at'], bool(c.get('bits'))] for c in d.consts],
     conns=[[_o2j(c['a']), _o2j(c['b']), c['at'], c['auto']] for c in d.conns],
     blks=[[b['comp'], b['ff'], [[_o2j(t), op, [rhs[0]] + ([rhs[1]] if rhs[0] == 'k' else [_o2j(rhs[1])] if rhs[0] == 'r' else [])]
                                 for (t, op, rhs) in b['stmts']], [_o2j(r) for r in b.get('extra_reads', [])], list(b.get('calls', []))] for b in d.blks],
@@ -1452,8 +1498,8 @@ def design_from_json(j):
   for comp, name, kind, typ in j['sigs']:
     sid = d.add_sig(comp, name, kind, tuple(typ))
     if name in ('clk', 'reset'): d.comps[comp][name] = sid
-  for typ, value, at in j['consts']:
-    d.consts.append(dict(cid=len(d.consts), type=tuple(typ), value=value, at=at))
+  for typ, value, at, *rest in j['consts']:
+    d.consts.append(dict(cid=len(d.consts), type=tuple(typ), value=value, at=at, bits=bool(rest[0]) if rest else False))
   for a, b, at, auto in j['conns']:
     d.conns.append(dict(a=_j2o(a), b=_j2o(b), at=at, auto=auto))
     d.nodes.add(_j2o(a)); d.nodes.add(_j2o(b))
